@@ -64,6 +64,14 @@ CLAIMED = {
     note="Integrals by tensor trapezoid quadrature (1e-8 / 1e-7); two values per parameter; the number of segments may be floor(L/2r) or one less (floating-point floor), both tile exactly.",
     technique="TLA+ setter state machine + rational tiling, TLC exhaustive edges replayed vs fresh object; numeric identities on final objects",
     design="4.18"),
+ "C13": dict(
+    text="FuncWrap.tla states, for every wrapper class (iso-mappers, swizzles incl. all 27 Swizzle3D shapes, slices, axisymmetric and cylindrical mappers with rational radii and "
+         "angles from Pythagorean points, input/output clamps, scalar and vector periodic transforms, polygon mask by exact crossing number on lattice polygons) the argument tuple the "
+         "wrapped function must receive and the post-processing, plus sampler grids; TLC enumerates ~720 cases and checks range/congruence invariants; every case is executed with "
+         "recording callables and compared. IEEE edge tokens (tiny negative, -0.0, 1e300, exact multiples, on-axis / underflowing radii) are checked by predicate.",
+    note="Rational-lattice arguments only (periods are exact binary fractions); general IEEE-754 behaviour is covered only by the named tokens; polygon points on an edge accepted either way.",
+    technique="TLA+ case table with exact integer arithmetic enumerated by TLC, one recording-callable test per case",
+    design="4.13"),
 }
 
 NOT_YET = {}
